@@ -37,7 +37,7 @@ type c10 struct {
 	w          *World
 	files      []*MFile
 	mode       string
-	allowedDup map[string]bool
+	allowedDup map[string]int // per statement: at how many crashes it was the one in flight
 }
 
 const propC10 = "C10"
@@ -117,18 +117,23 @@ func (c *c10) check(d *observe.Dump, when string, target []*MFile, afterCrash bo
 				return
 			}
 			if afterCrash && hasRev && lead == rev.Applied+1 {
-				c.allowedDup[f.Stmts[rev.Applied].ID] = true
+				c.allowedDup[f.Stmts[rev.Applied].ID]++
 				r.Probe("crash-between-statement-and-bookkeeping")
 			}
 		}
 		for _, s := range f.Stmts {
 			n := Effect(d, s)
-			if n > 2 || (n == 2 && !(em == "none" && c.allowedDup[s.ID])) {
+			// Each crash may repeat the one statement that was in flight at it (twice in a row if two
+			// crashes hit the same statement), and only in files that run without a transaction.
+			if n > 1+c.allowedDup[s.ID] || (n > 1 && em != "none") {
 				r.Fail(propC10, "multiplicity", sig("statement-repeated"), "%s: statement %s took effect %d times (mode %s, in-flight statements at crashes: %v)", when, s.ID, n, c.mode, keys(c.allowedDup))
 				return
 			}
-			if n == 2 {
+			if n >= 2 {
 				r.Probe("statement-executed-twice-after-crash")
+			}
+			if n >= 3 {
+				r.Probe("statement-in-flight-at-two-crashes")
 			}
 		}
 	}
@@ -148,7 +153,7 @@ func (c *c10) check(d *observe.Dump, when string, target []*MFile, afterCrash bo
 	}
 }
 
-func keys(m map[string]bool) []string {
+func keys(m map[string]int) []string {
 	var out []string
 	for k := range m {
 		out = append(out, k)
@@ -295,7 +300,7 @@ func C10(r *simkit.Run) {
 		}
 	}
 	w.WriteDir(files)
-	c := &c10{r: r, w: w, files: files, mode: mode, allowedDup: map[string]bool{}}
+	c := &c10{r: r, w: w, files: files, mode: mode, allowedDup: map[string]int{}}
 	r.Sample("mode=%s dir: %s", mode, Describe(files))
 	r.Logf("mode=%s dir=%s", mode, Describe(files))
 	apply := func(env []string, n int) CmdResult {
